@@ -51,7 +51,7 @@ func c11(c *q.Ctx) {
 	}
 	bp := c.Fn(pt + "buildPermTree")
 	if bp != nil {
-		cur := "phi{p0|phi{ptree.(*PermNode).FindChild(loop,ptree.SplitAccountURI(p2[])[])|ptree.NewPermNode(*)}}"
+		cur := "phi{p0|ptree.(*PermNode).FindChild(loop,ptree.SplitAccountURI(p2[])[])|ptree.NewPermNode(*)}"
 		c.Effect(bp, q.Eff{Spec: "PermNode.FindChild", Arg: -2, Glob: cur, Why: "a path component is looked up among the children of the node being descended", Rule: "K12"})
 		c.Effect(bp, q.Eff{Spec: "append", Arg: 0, Glob: cur + ".Children", Req: []q.Cond{{Canon: "(nil == ptree.(*PermNode).FindChild(" + cur + ",ptree.SplitAccountURI(p2[])[]))", Sense: true}}, Why: "a child is created only after the lookup under the same parent missed: one node per distinct signer", Rule: "K12"})
 		c.Guard(bp, q.Cond{Canon: "(p0.Name == ptree.SplitAccountURI(p2[])[0])", Sense: false}, q.ToCallSameIter("PermNode.FindChild"), q.Opt{Unless: []q.Cond{{Canon: "p3", Sense: false}}})
